@@ -19,7 +19,9 @@ import (
 	"github.com/MixinNetwork/mixin/common"
 	"github.com/MixinNetwork/mixin/crypto"
 	"github.com/MixinNetwork/mixin/verifmc"
+	vsync "github.com/MixinNetwork/mixin/verifmc/vsync"
 	"github.com/dgraph-io/badger/v4"
+	"github.com/dgraph-io/badger/v4/options"
 )
 
 // C26 — node work is credited exactly once per snapshot.
@@ -36,6 +38,9 @@ import (
 // Part 2 (E4): on-disk ledgers, a commit failure injected through
 // badger.VerifHook into every call attempted after a successful history, then
 // close + reopen + the resubmission loop of kernel.AggregateMintWork.
+//
+// Part 3 (E3, mc_c26_conc_test.go): overlapping WriteRoundWork calls of several
+// proposers under the preemption-bounded scheduler.
 //
 // Reference model: the SET of snapshots that were handed to a non-stale
 // credited call. Expected counters are a pure function of that set, so the
@@ -278,6 +283,12 @@ func (r *c26Ref) key(cfg *c26Cfg) string {
 // the snapshot.
 func (r *c26Ref) expect(f *c26Fix) map[uint32]map[crypto.Hash][2]uint64 {
 	out := map[uint32]map[crypto.Hash][2]uint64{}
+	r.expectInto(out, f.P)
+	return out
+}
+
+// expectInto adds the credits of the snapshots credited to proposer.
+func (r *c26Ref) expectInto(out map[uint32]map[crypto.Hash][2]uint64, proposer crypto.Hash) {
 	for _, w := range r.Credited {
 		d := uint32(w.Timestamp / DAY_U64)
 		if out[d] == nil {
@@ -285,7 +296,7 @@ func (r *c26Ref) expect(f *c26Fix) map[uint32]map[crypto.Hash][2]uint64 {
 		}
 		for _, s := range w.Signers {
 			v := out[d][s]
-			if s == f.P {
+			if s == proposer {
 				v[0]++
 			} else {
 				v[1]++
@@ -293,7 +304,6 @@ func (r *c26Ref) expect(f *c26Fix) map[uint32]map[crypto.Hash][2]uint64 {
 			out[d][s] = v
 		}
 	}
-	return out
 }
 
 // ---- instance ----
@@ -329,6 +339,7 @@ func (x *c26Inst) close() {
 type c26Pool struct {
 	c     *verifmc.Check
 	base  string // "" = in-memory ledgers, otherwise on-disk ledgers under base/w<worker>
+	heavy bool   // on-disk: the repository's own NewBadgerStore (64 MiB memtables, two DBs)
 	mu    sync.Mutex
 	slots map[int]*c26Slot
 	reset atomic.Int64
@@ -341,13 +352,71 @@ type c26Slot struct {
 	pristine map[string]string
 }
 
-func (p *c26Pool) get(worker int) *mcLedger {
+// c26OpenLight opens only the snapshots DB (WriteRoundWork, ListNodeWorks and
+// the genesis load never touch the cache DB) with the options of the
+// repository's openDB except for a 2 MiB memtable: the 2 x 80 MiB skiplist
+// arenas of the default options cost more than everything else in a run.
+func c26OpenLight(dir string) *BadgerStore {
+	var opts badger.Options
+	if dir == "" {
+		opts = badger.DefaultOptions("").WithInMemory(true).WithNumCompactors(2)
+	} else {
+		opts = badger.DefaultOptions(dir + "/snapshots").WithSyncWrites(true)
+		opts = opts.WithBaseLevelSize(16 << 20).WithLevelSizeMultiplier(16).WithMaxLevels(7)
+	}
+	opts = opts.WithCompression(options.None).WithBlockCacheSize(0).WithIndexCacheSize(0)
+	opts = opts.WithMetricsEnabled(false).WithLoggingLevel(badger.ERROR)
+	// (in-memory Badger refuses values above the threshold; 15% of the memtable bounds it)
+	opts = opts.WithMemTableSize(2 << 20).WithNumMemtables(2).WithValueThreshold(128 << 10).WithValueLogFileSize(16 << 20)
+	db, err := badger.Open(opts)
+	if err != nil {
+		panic(err)
+	}
+	return &BadgerStore{snapshotsDB: db, mutex: new(vsync.RWMutex)}
+}
+
+func (p *c26Pool) open(dir string) *BadgerStore {
+	if p.heavy && dir != "" {
+		store, err := OpenForVerif(dir)
+		if err != nil {
+			panic(fmt.Errorf("open %s: %v", dir, err))
+		}
+		return store
+	}
+	return c26OpenLight(dir)
+}
+
+func (p *c26Pool) closeStore(s *BadgerStore) {
+	if s.cacheDB != nil {
+		_ = s.Close()
+		return
+	}
+	_ = s.snapshotsDB.Close()
+}
+
+func (p *c26Pool) newLedger(dir string) *mcLedger {
+	store := p.open(dir)
+	rounds, snapshots, transactions, err := mcNet7.Genesis.BuildSnapshots()
+	if err != nil {
+		panic(err)
+	}
+	if err := store.LoadGenesis(rounds, snapshots, transactions); err != nil {
+		panic(err)
+	}
+	return &mcLedger{Net: mcNet7, Store: store}
+}
+
+// get returns the worker's ledger reset to the state right after LoadGenesis
+// plus the records written by extra (nExtra of them), in ONE transaction:
+// delete every WORK* record, write the genesis records back, run extra. The
+// result is verified record by record.
+func (p *c26Pool) get(worker int, nExtra int, extra func(txn *badger.Txn) error) *mcLedger {
 	p.mu.Lock()
 	sl := p.slots[worker]
 	// superseded versions stay in the memtable and slow every prefix scan
 	// down: start over with a new ledger now and then
-	if sl != nil && sl.uses >= 256 {
-		sl.L.Close()
+	if sl != nil && sl.uses >= 64 {
+		p.closeStore(sl.L.Store)
 		sl = nil
 	}
 	if sl == nil {
@@ -356,35 +425,29 @@ func (p *c26Pool) get(worker int) *mcLedger {
 			dir = filepath.Join(p.base, fmt.Sprintf("w%d", worker))
 			_ = os.RemoveAll(dir)
 		}
-		sl = &c26Slot{L: newMCLedger(dir), dir: dir}
+		sl = &c26Slot{L: p.newLedger(dir), dir: dir}
 		sl.pristine = sl.L.Store.VerifDump("WORK")
 		p.slots[worker] = sl
 	}
 	p.mu.Unlock()
 	sl.uses++
-	if sl.uses == 1 {
-		return sl.L
-	}
 	db := sl.L.Store.snapshotsDB
 	err := db.Update(func(txn *badger.Txn) error {
-		opts := badger.DefaultIteratorOptions
-		opts.PrefetchValues = false
-		opts.Prefix = []byte("WORK")
-		it := txn.NewIterator(opts)
-		var keys [][]byte
-		for it.Rewind(); it.Valid(); it.Next() {
-			keys = append(keys, it.Item().KeyCopy(nil))
-		}
-		it.Close()
-		for _, k := range keys {
-			if err := txn.Delete(k); err != nil {
-				return err
+		if sl.uses > 1 {
+			opts := badger.DefaultIteratorOptions
+			opts.PrefetchValues = false
+			opts.Prefix = []byte("WORK")
+			it := txn.NewIterator(opts)
+			var keys [][]byte
+			for it.Rewind(); it.Valid(); it.Next() {
+				keys = append(keys, it.Item().KeyCopy(nil))
 			}
-		}
-		return nil
-	})
-	if err == nil {
-		err = db.Update(func(txn *badger.Txn) error {
+			it.Close()
+			for _, k := range keys {
+				if err := txn.Delete(k); err != nil {
+					return err
+				}
+			}
 			for k, v := range sl.pristine {
 				kb, _ := hex.DecodeString(k)
 				vb, _ := hex.DecodeString(v)
@@ -392,38 +455,41 @@ func (p *c26Pool) get(worker int) *mcLedger {
 					return err
 				}
 			}
-			return nil
-		})
-	}
+		}
+		return extra(txn)
+	})
 	if err != nil {
 		panic(err)
 	}
 	now := sl.L.Store.VerifDump("WORK")
-	same := len(now) == len(sl.pristine)
+	same := len(now) == len(sl.pristine)+nExtra
 	for k, v := range sl.pristine {
 		same = same && now[k] == v
 	}
-	p.c.Require(same, "ledger reset left %d WORK records, pristine has %d", len(now), len(sl.pristine))
-	p.reset.Add(1)
+	snapPrefix := hex.EncodeToString([]byte(graphPrefixWorkSnapshot))
+	for k := range now {
+		// nothing but snapshot work records: no checkpoint, no counters
+		same = same && strings.HasPrefix(k, snapPrefix)
+	}
+	p.c.Require(same, "ledger reset left %d WORK records, genesis has %d and the fixture %d", len(now), len(sl.pristine), nExtra)
+	if sl.uses > 1 {
+		p.reset.Add(1)
+	}
 	return sl.L
 }
 
 func (p *c26Pool) closeAll() {
 	for _, sl := range p.slots {
-		sl.L.Close()
+		p.closeStore(sl.L.Store)
 	}
 }
 
 func (x *c26Inst) setup(cfg *c26Cfg, dir string) {
 	x.cfg, x.ref = cfg, c26NewRef()
-	if x.pool != nil {
-		x.L, x.pooled = x.pool.get(x.worker), true
-	} else {
-		x.L = newMCLedger(dir)
-	}
 	// the snapshots of rounds 1..3 are final: their work records are written
 	// the way WriteSnapshot does it
-	err := x.L.Store.snapshotsDB.Update(func(txn *badger.Txn) error {
+	n := 0
+	fixture := func(txn *badger.Txn) error {
 		for i := 1; i <= 3; i++ {
 			for _, w := range cfg.Rounds[i] {
 				snap := &common.SnapshotWithTopologicalOrder{Snapshot: &common.Snapshot{
@@ -435,8 +501,16 @@ func (x *c26Inst) setup(cfg *c26Cfg, dir string) {
 			}
 		}
 		return nil
-	})
-	if err != nil {
+	}
+	for i := 1; i <= 3; i++ {
+		n += len(cfg.Rounds[i])
+	}
+	if x.pool != nil {
+		x.L, x.pooled = x.pool.get(x.worker, n, fixture), true
+		return
+	}
+	x.L = newMCLedger(dir)
+	if err := x.L.Store.snapshotsDB.Update(fixture); err != nil {
 		panic(err)
 	}
 }
@@ -758,7 +832,7 @@ func c26CrashCase(c *verifmc.Check, f *c26Fix, all []*c26Cfg, pt c26Point, mode 
 		st.refused.Add(arm.refused.Load())
 		x.oracle("crash", "refused commits", report)
 		tcl := time.Now()
-		_ = x.L.Store.Close()
+		pool.closeStore(x.L.Store)
 		st.closeNs.Add(int64(time.Since(tcl)))
 		c26Armed.Delete(sdir)
 	case mode >= c26ModeSplit:
@@ -783,18 +857,15 @@ func c26CrashCase(c *verifmc.Check, f *c26Fix, all []*c26Cfg, pt c26Point, mode 
 		steps = append(steps, fmt.Sprintf("%s: commit 1 passed, commit 2 refused (%v)", c26EventName(all, e), err))
 		st.splitCommit.Add(1)
 		predictable = false
-		_ = x.L.Store.Close()
+		pool.closeStore(x.L.Store)
 		c26Armed.Delete(sdir)
 	default:
-		_ = x.L.Store.Close()
+		pool.closeStore(x.L.Store)
 	}
 	// restart
 	t0 := time.Now()
-	store, err := OpenForVerif(dir)
+	store := pool.open(dir)
 	st.reopenNs.Add(int64(time.Since(t0)))
-	if err != nil {
-		panic(fmt.Errorf("reopen %s: %v", dir, err))
-	}
 	x.L.Store = store // the pooled ledger continues on the reopened store
 	steps = append(steps, "reopen")
 	off, err := store.ReadWorkOffset(f.P)
@@ -858,7 +929,7 @@ func c26CrashCase(c *verifmc.Check, f *c26Fix, all []*c26Cfg, pt c26Point, mode 
 func TestMC_C26(t *testing.T) {
 	c := verifmc.Start(t, "C26", "model_checking")
 	defer c.Finish()
-	c.SetRule("BFS with state deduplication over all histories [fixture, call, call, ...]: fixture = (day/credit plan, signer layout) of one proposer P, three other signers and rounds 1..3 of three snapshots each around a day boundary, plus the two signer-less genesis snapshots of round 0; call = WriteRoundWork(P, round, first k snapshots of the round, credit[round]) for round 0..3, k 0..3. Calls that hit a panic of the function itself (round > offset+1, shrinking set, two days in one credited fresh batch) are executed, must panic and are not transitions; stale calls (round < offset) are transitions. State = fixture + reference (offset, submitted set, credited set) + digest of all WORK* records. Oracle in every state: ListNodeWorks(P,A,B,C,bystander) on 5 days = counters derived from the SET of snapshots handed to a non-stale credited call. Crash part: for every reference state reachable with <= n calls, on an on-disk ledger: (a, thorough only, subsumed by b) close and reopen, (b) every enabled call attempted with its commit refused through badger.VerifHook, then close and reopen, (c) per enabled call: only its first commit allowed (a crash point inside the call exists only if it is not one transaction); then the AggregateMintWork loop (ReadWorkOffset, ReadSnapshotWorksForNodeRound, WriteRoundWork for offset..3) with the oracle after every step")
+	c.SetRule("BFS with state deduplication over all histories [fixture, call, call, ...]: fixture = (day/credit plan, signer layout) of one proposer P, three other signers and rounds 1..3 of three snapshots each around a day boundary, plus the two signer-less genesis snapshots of round 0; call = WriteRoundWork(P, round, first k snapshots of the round, credit[round]) for round 0..3, k 0..3. Calls that hit a panic of the function itself (round > offset+1, shrinking set, two days in one credited fresh batch) are executed, must panic and are not transitions; stale calls (round < offset) are transitions. State = fixture + reference (offset, submitted set, credited set) + digest of all WORK* records. Oracle in every state: ListNodeWorks(P,A,B,C,bystander) on 5 days = counters derived from the SET of snapshots handed to a non-stale credited call. Crash part: for every reference state reachable with <= n calls, on an on-disk ledger: (a, thorough only, subsumed by b) close and reopen, (b) every enabled call attempted with its commit refused through badger.VerifHook, then close and reopen, (c) per enabled call: only its first commit allowed (a crash point inside the call exists only if it is not one transaction); then the AggregateMintWork loop (ReadWorkOffset, ReadSnapshotWorksForNodeRound, WriteRoundWork for offset..3) with the oracle after every step. Concurrent part: 5 scenarios of 2-3 threads (different proposers sharing signers on one day, a proposer resubmitting next to another proposer, two threads of one proposer, two rounds over the day boundary), each thread = WriteRoundWork calls with the kernel's retry on badger.ErrConflict; all schedules of the Badger begin/commit points up to the preemption bound, each on a fresh ledger; counters and offsets compared with the same sequential reference")
 	c.Assume("credit is fixed per round (kernel rule day(first(r)) == day(first(r+1)), or always true as in the mainnet fork-batch exception); every non-genesis snapshot is signed by its proposer; snapshot timestamps within a chain are distinct; a refused Badger commit leaves no trace (checked) and a closed+reopened on-disk store stands for a crashed process (Badger durability itself is trusted); dedup key contains every record WriteRoundWork reads")
 
 	f := c26NewFix(c)
@@ -883,6 +954,9 @@ func TestMC_C26(t *testing.T) {
 	}
 	c.Set("fixtures", len(cfgs))
 	c.Set("call_alphabet", len(c26Calls))
+
+	// E3 first: its scheduling hook and the crash injector below share the seam
+	c26Concurrent(c)
 
 	badger.VerifHook = c26Hook
 	defer func() { badger.VerifHook = nil }()
@@ -952,7 +1026,9 @@ func TestMC_C26(t *testing.T) {
 	c.Set("crash_points", len(points))
 	var st c26CrashStats
 	nm := c26ModeSplit + len(c26Calls)
-	dpool := &c26Pool{c: c, base: filepath.Join(scratch, "c26-crash"), slots: map[int]*c26Slot{}}
+	// thorough: the repository's own on-disk store (NewBadgerStore through
+	// OpenForVerif); quick: the same directories with small memtables
+	dpool := &c26Pool{c: c, base: filepath.Join(scratch, "c26-crash"), heavy: c.Thorough(), slots: map[int]*c26Slot{}}
 	tc := time.Now()
 	c.ParallelN(nm*len(points), "crash cases", func(w, i int) {
 		if i%nm == c26ModeReopen && !c.Thorough() {
